@@ -252,6 +252,7 @@ def run_ops(defn, ops, extra=None):
             for op in ops:
                 del published[:], log[:], tasklog[:]
                 exc = None
+                before = enc_device(d, defn)
                 try:
                     apply_op(d, defn, op)
                 except Exception as e:  # noqa
@@ -259,7 +260,8 @@ def run_ops(defn, ops, extra=None):
                 await asyncio.sleep(0)
                 await asyncio.sleep(0)
                 obs.append({"exc": exc, "msgs": list(published), "views": [msg_view(m) for m in published],
-                            "calls": list(log), "tasks": list(tasklog), "state": enc_state(d, defn)})
+                            "calls": list(log), "tasks": list(tasklog), "state": enc_state(d, defn),
+                            "before": before, "after": enc_device(d, defn)})
 
         asyncio.run(main())
         return d, dev_line, obs
@@ -288,7 +290,39 @@ def run_impl(case, outcome):
 
 
 def oracle_queries(case, d, dev_line, obs, outcome):
-    return []
+    """spec-side queries: which ones are asked depends on case["oracles"] (a set of property ids)"""
+    from indi.message import IndiMessage
+
+    want = set(case.get("oracles") or [])
+    qs = []
+    for op, o in zip(case["ops"], obs):
+        raised = o["exc"] is not None
+        if "C07" in want:
+            # every message a driver emits is a valid protocol message that the library's own parser reads back unchanged
+            for m, v in zip(o["msgs"], o["views"]):
+                try:
+                    back = msg_view(IndiMessage.from_string(m.to_string()))
+                    qs.append(Query("spec normeq %s %s" % (enc_msg(v), enc_msg(back)), "True", "oracle",
+                                    "an emitted message read back by the library's parser differs"))
+                except Exception as e:  # noqa
+                    qs.append(Query("spec readsback " + enc_msg(v), "unparsable:" + type(e).__name__, "oracle",
+                                    "an emitted message is rejected by the library's own parser"))
+                qs.append(Query("spec readsback " + enc_msg(v), "True", "corr"))
+            if op[0] == "c" and op[1]["cls"].endswith("GetProperties"):
+                name = op[1]["kw"].get("name")
+                qs.append(Query("spec c07 %s %s %s" % (o["before"], enc_opt(name), enc_list(enc_msg, o["views"])),
+                                ("True", "na") if not raised else "raised", "oracle", "getProperties elicits exactly the definitions asked for"))
+        if "C12" in want and op[0] == "c":
+            view = enc_msg(msg_view(comp_codec.build(op[1])))
+            qs.append(Query("spec c12 %s %s %s %s" % (o["before"], view, enc_bool(raised), o["after"]), "True", "oracle",
+                            "a client message raised, or changed state it does not validly name"))
+        if "C14" in want and op[0] in ("a", "s"):
+            nset = sum(1 for v in o["views"] if v["tag"].startswith("set"))
+            qs.append(Query("spec c14 %s %d %d %d %s %s %s %s %s %d %s" % (
+                o["before"], op[1], op[2], op[3], enc_bool(op[0] == "s"), enc_jvalue(op[4]), enc_bool(raised),
+                enc_list(lambda c: c, o["calls"]), enc_list(lambda c: c, o["tasks"]), nset, o["after"]),
+                ("True", "na"), "oracle", "event contract: Write, then default update and publication, then Change"))
+    return qs
 
 
 # --------------------------------------------------------------------------
@@ -447,7 +481,7 @@ def client_write1(rng, defn, hostile):
                 n = 0
             extra = {"size": str(n), "format": ".bin"}
             if fault == "bad-size":
-                extra["size"] = rng.choice(["999", "abc", "-1", " 3 ", "1_0", "1.0", ""])
+                extra["size"] = rng.choice(["999", "abc", "-1", " 3 ", "1_0", "1.0", "", "inf", "Infinity", "1e999", "nan", "0x3", "3.0", "１２"])
             if fault == "missing-size":
                 extra["size"] = None
             if fault == "bad-value":
@@ -501,4 +535,106 @@ def gen_cases(rng, tier):
     n = 1500 if tier == "thorough" else 250
     for _ in range(n):
         defn = random_definition(rng)
-        yield {"op": "dev", "def": defn, "ops": random_ops(rng, defn, rng.randint(3, 25))}
+        yield {"op": "dev", "def": defn, "ops": random_ops(rng, defn, rng.randint(3, 25)), "oracles": ["C07", "C12", "C14"]}
+
+
+# --------------------------------------------------------------------------
+# C12: the fault catalogue, systematically
+
+def five_kind_definition(rng, handlers=False):
+    """one property of every kind (switches under each rule), two or three elements each"""
+    vecs = []
+    for kind, rule in [("text", None), ("number", None), ("switch", "OneOfMany"), ("switch", "AtMostOne"), ("switch", "AnyOfMany"), ("light", None), ("blob", None)]:
+        elements = []
+        for ei in range(3 if kind == "switch" else 2):
+            e = {"key": "e%d" % ei, "name": "E%d" % ei, "enabled": True,
+                 "default": {"text": {"t": "x%d" % ei}, "number": {"n": hexf(1.5 * ei)}, "switch": {"t": "On" if ei == 0 else "Off"},
+                             "light": {"t": "Ok"}, "blob": ({"b": "414243", "fmt": ".bin"} if ei else None)}[kind]}
+            if kind == "number":
+                e["format"] = ["%.2f", "%.6m"][ei]
+            if handlers and ei == 0:
+                e["write"] = [{"id": 1 + len(vecs) * 4, "async": False, "veto": False}]
+                e["change"] = [{"id": 2 + len(vecs) * 4, "async": False}]
+            elements.append(e)
+        v = {"key": "v%d" % len(vecs), "name": "%s%s" % (kind.upper(), rule or ""), "kind": kind, "state": "Ok", "enabled": True, "elements": elements}
+        if kind != "light":
+            v["perm"], v["timeout"] = "rw", 0
+        if rule:
+            v["rule"] = rule
+        vecs.append(v)
+    return {"name": "D", "groups": [{"key": "g0", "name": "G0", "enabled": True, "vectors": vecs[:4]},
+                                    {"key": "g1", "name": "G1", "enabled": True, "vectors": vecs[4:]}]}
+
+
+def fault_catalogue(defn):
+    """every hostile-but-constructible client message of the catalogue against every property"""
+    import base64
+
+    out = []
+    texts = {"text": ["v", "", None, "<&>"], "number": ["12", "abc", "", None, "1:2:3:4", "1e5", "9" * 400, "12:30", "--1", "١٢"],
+             "switch": ["On", "Off"], "blob": [base64.b64encode(b"ABC").decode(), "!!!", "QQ", "Q", None, "", "QUJD=", "QU JD", "é"]}
+    sizes = ["3", "999", "abc", "-1", " 3 ", "1_0", "3.0", "", None, "inf", "Infinity", "1e999", "nan", "0x3", "１２", "0"]
+    allv = [(g, v) for g in defn["groups"] for v in g["vectors"]]
+    for g, v in allv:
+        for mkind in ("text", "number", "switch", "blob"):          # includes every kind mismatch and light targets
+            for ename in ("E0", "E1", "nope", "", None):
+                for text in texts[mkind]:
+                    for size in (sizes if mkind == "blob" and text == texts["blob"][0] else ["3"]):
+                        extra = {"size": size, "format": ".bin"} if mkind == "blob" else None
+                        ch = [comp_codec.part_recipe(one_tag(mkind), ename, text, extra)]
+                        for pname in (v["name"], "NOPE", None):
+                            r = comp_codec.msg_recipe(new_tag(mkind), (), ch)
+                            r["kw"]["name"], r["kw"]["device"] = pname, "D"
+                            out.append(r)
+            r = comp_codec.msg_recipe(new_tag(mkind), (), [])          # no children
+            r["kw"]["name"], r["kw"]["device"] = v["name"], "D"
+            out.append(r)
+        # duplicate children, valid + invalid + valid
+        if v["kind"] in texts:
+            k = v["kind"]
+            good = texts[k][0]
+            extra = {"size": "3", "format": ".bin"} if k == "blob" else None
+            for ch in ([comp_codec.part_recipe(one_tag(k), "E0", good, extra)] * 2,
+                       [comp_codec.part_recipe(one_tag(k), "E0", good, extra), comp_codec.part_recipe(one_tag(k), "nope", good, extra),
+                        comp_codec.part_recipe(one_tag(k), "E1", good, extra)]):
+                r = comp_codec.msg_recipe(new_tag(k), (), ch)
+                r["kw"]["name"], r["kw"]["device"] = v["name"], "D"
+                out.append(r)
+    # message kinds a client should not send
+    for tag in ("setTextVector", "defTextVector", "delProperty", "message", "enableBLOB", "pingReply", "pingRequest", "oneLight"):
+        r = comp_codec.msg_recipe(tag, ())
+        if "device" in r["kw"]:
+            r["kw"]["device"] = "D"
+        if "name" in r["kw"]:
+            r["kw"]["name"] = "TEXT"
+        out.append(r)
+    res = []
+    for r in out:
+        try:
+            comp_codec.build(r)
+            res.append(r)
+        except Exception:  # noqa  -- rejected at construction: never reaches a driver (wire level: conn component)
+            pass
+    return res
+
+
+def gen_c12(rng, tier):
+    defn = five_kind_definition(rng)
+    faults = fault_catalogue(defn)
+    valid = [client_write(rng, defn, False) for _ in range(12)] + [get_properties(rng, defn) for _ in range(4)]
+    # every fault at a position in a session of valid traffic
+    chunk = 40
+    for i in range(0, len(faults), chunk):
+        ops = []
+        for f in faults[i:i + chunk]:
+            ops.append(["c", rng.choice(valid)])
+            ops.append(["c", f])
+        ops.append(["c", rng.choice(valid)])
+        yield {"op": "dev", "def": defn, "ops": ops, "oracles": ["C12"]}
+    defn_h = five_kind_definition(rng, handlers=True)
+    for i in range(0, len(faults), chunk * 4):
+        yield {"op": "dev", "def": defn_h, "ops": [["c", f] for f in faults[i:i + chunk * 4:4]], "oracles": ["C12"]}
+    n = 600 if tier == "thorough" else 80
+    for _ in range(n):
+        d2 = random_definition(rng)
+        yield {"op": "dev", "def": d2, "ops": random_ops(rng, d2, rng.randint(5, 30), hostile_rate=0.7), "oracles": ["C12"]}
